@@ -590,8 +590,16 @@ def marshalVT : List Layer → R VTTile
 
 /-! ### Unmarshal (unmarshal.go:36-250, 409-446) -/
 
-/-- `float64(float32)` on bit patterns. -/
-def f32to64 (b : UInt32) : UInt64 := (Float32.ofBits b).toFloat.toBits
+/-- `float64(float32)` on bit patterns.  A NaN keeps its sign and its payload (moved to the top
+    of the wider fraction) and comes back quiet: that is what the conversion instruction of
+    amd64 (CVTSS2SD) and arm64 (FCVT) does, and what Go therefore returns.  Lean's
+    `Float32.toFloat` is the same conversion but its `toBits` canonicalises every NaN to
+    `7ff8000000000000`, so NaNs are widened here on the bit pattern. -/
+def f32to64 (b : UInt32) : UInt64 :=
+  if f32IsNaN b then
+    ((b &&& 0x80000000).toUInt64 <<< (32 : UInt64)) ||| (0x7ff8000000000000 : UInt64) |||
+      ((b &&& 0x007fffff).toUInt64 <<< (29 : UInt64))
+  else (Float32.ofBits b).toFloat.toBits
 /-- `float64(int64)` / `float64(uint64)` on the integer value. -/
 def i2f (v : Int) : UInt64 := (Float.ofInt v).toBits
 
